@@ -53,6 +53,9 @@ impl From<MILPValue> for f64 {
     }
 }
 
+/// Longest time limit handed to MicroLP (a century); longer ones are clamped.
+const MAX_TIME_LIMIT: Duration = Duration::from_secs(100 * 365 * 24 * 60 * 60);
+
 /// Tunable parameters for the MicroLP mixed-integer solver.
 ///
 /// The default is an empty configuration, which reproduces the behaviour of
@@ -192,7 +195,9 @@ pub fn solve_milp_lp_problem_with(
         solve_options.mip_gap = gap;
     }
     if let Some(limit) = options.time_limit {
-        solve_options.time_limit = Some(limit);
+        // MicroLP adds the limit to the current instant, which overflows for
+        // limits near Duration::MAX
+        solve_options.time_limit = Some(limit.min(MAX_TIME_LIMIT));
     }
 
     match problem.solve_with(solve_options) {
